@@ -23,6 +23,17 @@ early `return`/`continue`).  Loops, Optional filtering and dict plumbing are NOT
 hand-written glue of `Frequenz/Model/PoolBounds.lean` / `PoolSoc.lean`, tied to the code by the
 differential check.  Anything outside the subset raises `Unsupported` — the check then treats the proofs
 as broken and searches for a failing input.
+
+The sites of C17 (`is_close_to_zero`, `_aggregate_battery_power_bounds`, `AggregatedBatteryData.__init__`,
+`_get_bounds`, the tail of `_check_request`, the crucial-metric lists, `PowerBoundsCalculator`) go through the
+CANONICAL translator `CTr`: locals are inlined, generator binders are named by nesting depth, `if not c` is
+emitted with the arms swapped, a chained comparison equals the conjunction of its links, keyword arguments of
+`PowerBounds` follow the dataclass, `return a if c else b` = `if c: return a else: return b`, a sum-loop
+(`acc = 0.0; for …: acc += e`) = `sum(e for …)`, one-expression helpers are inlined, parameters / locals are found by
+ROLE (what they are assigned from, which bound of the result they feed) and get fixed names in the Lean text.  So a
+rename, a reordering of independent statements, an inverted `if`, an extracted or inlined local produce the very
+same Lean text, while any change of an operator, operand, constant or branch still changes it.  The SoC / capacity
+calculators (C18) keep the literal `let`-style translator `Tr`.
 """
 from __future__ import annotations
 
@@ -309,6 +320,417 @@ class Tr:
         raise Unsupported(f"statement {type(s).__name__}: {ast.unparse(s)[:60]}")
 
 
+# --------------------------------------------------------------------------------------- canonical translator
+def strip_nots(test: ast.expr) -> tuple[ast.expr, bool]:
+    """`not not … X` -> (X, polarity)."""
+    pol = True
+    while isinstance(test, ast.UnaryOp) and isinstance(test.op, ast.Not):
+        test, pol = test.operand, not pol
+    return test, pol
+
+
+def _names_in(n: ast.AST) -> set[str]:
+    return {x.id for x in ast.walk(n) if isinstance(x, ast.Name)}
+
+
+def fold_sum_loops(stmts: list[ast.stmt]) -> list[ast.stmt]:
+    """`acc = 0.0 … for t in it: [for u in it2:] acc += e`  ->  `acc = sum(e for t in it [for u in it2])`.
+
+    Only when nothing between the initialisation and the loop mentions `acc`, the loop body is that single `+=`
+    (no filter, no else) and `e` / the iterables do not mention `acc`: then both forms compute the same left fold
+    starting at zero.  Anything else is left alone (and later refused by the translator)."""
+    out = list(stmts)
+    changed = True
+    while changed:
+        changed = False
+        for i, s in enumerate(out):
+            if not isinstance(s, ast.For) or s.orelse:
+                continue
+            gens, body = [], s
+            while isinstance(body, ast.For) and not body.orelse and len(body.body) == 1:
+                gens.append(ast.comprehension(target=body.target, iter=body.iter, ifs=[], is_async=0))
+                body = body.body[0]
+            if not (isinstance(body, ast.AugAssign) and isinstance(body.op, ast.Add) and isinstance(body.target, ast.Name)):
+                continue
+            acc = body.target.id
+            if acc in _names_in(body.value) or any(acc in _names_in(g.iter) or acc in _names_in(g.target) for g in gens):
+                continue
+            j = next((k for k in range(i - 1, -1, -1) if acc in _names_in(out[k])), None)
+            if j is None:
+                continue
+            init = out[j]
+            val = init.value if isinstance(init, (ast.Assign, ast.AnnAssign)) else None
+            tgt = (init.targets[0] if isinstance(init, ast.Assign) and len(init.targets) == 1
+                   else init.target if isinstance(init, ast.AnnAssign) else None)
+            if not (isinstance(tgt, ast.Name) and tgt.id == acc and isinstance(val, ast.Constant)
+                    and isinstance(val.value, (int, float)) and not isinstance(val.value, bool) and val.value == 0):
+                continue
+            call = ast.Call(func=ast.Name(id="sum", ctx=ast.Load()),
+                            args=[ast.GeneratorExp(elt=body.value, generators=gens)], keywords=[])
+            new = ast.Assign(targets=[ast.Name(id=acc, ctx=ast.Store())], value=call)
+            out = out[:j] + [new] + out[j + 1:i] + out[i + 1:]
+            changed = True
+            break
+    return [ast.fix_missing_locations(s) for s in out]
+
+
+class CTr:
+    """Canonical translator of the loop-free subset: the Lean term depends on what the code computes, not on how it
+    is spelled.
+
+    * every local is INLINED (`x = e; … x …` becomes `… e' …`; `x += e` becomes `(x' + e')`), so the result does not
+      depend on the names of locals, on the order of independent assignments, or on whether a sub-expression was
+      given a name (`let x := e; b` and `b[e/x]` are the same Lean term up to ζ);
+    * bound variables of generator expressions are renamed `x1, x2, …` in order of translation;
+    * `if not c: A else: B` is emitted as `if c then B else A`; statements after an `if` are continued in both arms
+      (so guard clauses `if c: return …` and `if c: … else: …` give the same term);
+    * a chained comparison and the conjunction of its links are printed identically; nested `and`/`or` are flattened;
+      `not` is pushed through `and`/`or` (De Morgan) but NEVER into a comparison (`not a < b` is not `a >= b` on NaN);
+    * keyword arguments of `PowerBounds(...)` are emitted in the order of the dataclass fields.
+
+    `env`: python local -> ("v", Lean term) | ("p", Lean Prop).  `attrs`: source text of an attribute chain that stands
+    for a parameter of the Lean definition (e.g. `request.adjust_power`).  A name that is neither is refused."""
+
+    def __init__(self, attrs: dict[str, tuple[str, str]] | None = None, skip_targets: set[str] | None = None,
+                 pb_fields: list[str] | None = None):
+        self.attrs = dict(attrs or {})
+        self.skip_targets = set(skip_targets or ())
+        self.pb_fields = list(pb_fields or [])
+        self.depth = 0  # nesting depth of generator binders: a binder is named after its depth, not after a counter
+
+    # ---- values
+    def e(self, n: ast.expr, env: dict) -> str:
+        src = ast.unparse(n)
+        if src in self.attrs:
+            kind, text = self.attrs[src]
+            return text if kind == "v" else f"(decide ({text}))"
+        if Tr.is_boolish(n):
+            return f"(decide ({self.p(n, env)}))"
+        if isinstance(n, ast.Name):
+            if n.id not in env:
+                raise Unsupported(f"name `{n.id}` is not a parameter or a translated local")
+            kind, text = env[n.id]
+            return text if kind == "v" else f"(decide ({text}))"
+        if isinstance(n, ast.Constant):
+            if isinstance(n.value, (int, float)) and not isinstance(n.value, bool):
+                return rat_lit(n.value)
+            raise Unsupported(f"constant {n.value!r}")
+        if isinstance(n, ast.Attribute):
+            return f"{self.e(n.value, env)}.{n.attr}"
+        if isinstance(n, ast.UnaryOp) and isinstance(n.op, ast.USub):
+            return f"(-{self.e(n.operand, env)})"
+        if isinstance(n, ast.UnaryOp) and isinstance(n.op, ast.UAdd):
+            return self.e(n.operand, env)
+        if isinstance(n, ast.BinOp):
+            for k, v in {ast.Add: "+", ast.Sub: "-", ast.Mult: "*", ast.Div: "/"}.items():
+                if isinstance(n.op, k):
+                    return f"({self.e(n.left, env)} {v} {self.e(n.right, env)})"
+            raise Unsupported(f"operator in {src}")
+        if isinstance(n, ast.IfExp):
+            test, pol = strip_nots(n.test)
+            a, b = (n.body, n.orelse) if pol else (n.orelse, n.body)
+            return f"(if {self.p(test, env)} then {self.e(a, env)} else {self.e(b, env)})"
+        if isinstance(n, ast.Subscript) and isinstance(n.slice, ast.Constant) and isinstance(n.slice.value, int) \
+                and not isinstance(n.slice.value, bool) and n.slice.value >= 0:
+            return f"({self.e(n.value, env)}.getD {n.slice.value} 0)"
+        if isinstance(n, ast.Call):
+            return self.call(n, env)
+        raise Unsupported(f"expression {src[:80]}")
+
+    def call(self, n: ast.Call, env: dict) -> str:
+        f = ast.unparse(n.func)
+        if f in ("sum", "max", "min") and len(n.args) == 1 and not n.keywords \
+                and isinstance(n.args[0], (ast.GeneratorExp, ast.ListComp)):
+            lean = {"sum": "pySum", "max": "pyMaxL", "min": "pyMinL"}[f]
+            return f"({lean} {self.gen(n.args[0], env)})"
+        if f in ("max", "min") and len(n.args) == 2 and not n.keywords:
+            a, b = (self.e(x, env) for x in n.args)
+            return f"(py{f.capitalize()} {a} {b})"
+        if f == "len" and len(n.args) == 1 and not n.keywords:
+            return f"(({self.e(n.args[0], env)}.length : Nat) : Rat)"
+        if f == "float" and len(n.args) == 1 and not n.keywords:
+            return self.e(n.args[0], env)
+        if f == "PowerBounds":
+            return self.struct(n, env)
+        raise Unsupported(f"call {ast.unparse(n)[:80]}")
+
+    def struct(self, n: ast.Call, env: dict) -> str:
+        if not self.pb_fields:
+            raise Unsupported("PowerBounds(...) before the dataclass was read")
+        if any(k.arg is None for k in n.keywords) or any(isinstance(a, ast.Starred) for a in n.args):
+            raise Unsupported("PowerBounds(*args / **kwargs)")
+        vals: dict[str, ast.expr] = dict(zip(self.pb_fields, n.args))
+        for k in n.keywords:
+            if k.arg in vals or k.arg not in self.pb_fields:
+                raise Unsupported(f"PowerBounds(...): argument {k.arg}")
+            vals[k.arg] = k.value  # type: ignore[index]
+        if len(n.args) > len(self.pb_fields) or set(vals) != set(self.pb_fields):
+            raise Unsupported(f"PowerBounds(...): fields {sorted(vals)}")
+        return "{ " + ", ".join(f"{f} := {self.e(vals[f], env)}" for f in self.pb_fields) + " : PowerBounds }"
+
+    def gen(self, g: ast.GeneratorExp | ast.ListComp, env: dict) -> str:
+        if any(c.ifs or c.is_async for c in g.generators) or not 1 <= len(g.generators) <= 2:
+            raise Unsupported(f"generator {ast.unparse(g)[:80]}")
+        env = dict(env)
+        binders = []
+        depth0 = self.depth
+        for c in g.generators:
+            it = self.e(c.iter, env)
+            self.depth += 1
+            v = f"x{self.depth}"
+            if isinstance(c.target, ast.Name):
+                env[c.target.id] = ("v", v)
+            elif isinstance(c.target, ast.Tuple) and len(c.target.elts) == 2 and all(isinstance(x, ast.Name) for x in c.target.elts):
+                for i, x in enumerate(c.target.elts):
+                    if x.id != "_":  # type: ignore[attr-defined]
+                        env[x.id] = ("v", f"{v}.{i + 1}")  # type: ignore[attr-defined]
+            else:
+                raise Unsupported(f"generator target {ast.unparse(c.target)}")
+            binders.append((v, it))
+        body = self.e(g.elt, env)
+        self.depth = depth0
+        if len(binders) == 1:
+            (v, it), = binders
+            return f"(List.map (fun {v} => {body}) {it})"
+        (v1, it1), (v2, it2) = binders
+        return f"(List.flatMap (fun {v1} => List.map (fun {v2} => {body}) {it2}) {it1})"
+
+    # ---- propositions
+    _OPS = {ast.Lt: "<", ast.LtE: "≤", ast.Gt: ">", ast.GtE: "≥", ast.Eq: "=", ast.NotEq: "≠"}
+
+    def _links(self, n: ast.Compare, env: dict) -> list[str]:
+        parts, left = [], n.left
+        for op, right in zip(n.ops, n.comparators):
+            sym = self._OPS.get(type(op))
+            if sym is None:
+                raise Unsupported(f"comparison in {ast.unparse(n)}")
+            parts.append(f"{self.e(left, env)} {sym} {self.e(right, env)}")
+            left = right
+        return parts
+
+    def _junct(self, n: ast.expr, neg: bool, env: dict, conj: bool) -> list[str]:
+        """Flattened operands of the conjunction (`conj`) / disjunction that `n` (negated if `neg`) stands for."""
+        n, pol = strip_nots(n)
+        neg = neg != (not pol)
+        if isinstance(n, ast.Name) and n.id in env and env[n.id][0] == "p":
+            node = env[n.id][2] if len(env[n.id]) > 2 else None
+            if node is not None:
+                return self._junct(node[0], neg, node[1], conj)
+        if isinstance(n, ast.BoolOp):
+            is_and = isinstance(n.op, ast.And) != neg
+            if is_and == conj:
+                return [x for v in n.values for x in self._junct(v, neg, env, conj)]
+        if isinstance(n, ast.Compare) and not neg and conj:
+            return self._links(n, env)
+        if isinstance(n, ast.Compare) and neg and not conj and len(n.ops) > 1:
+            return [f"(¬ ({x}))" for x in self._links(n, env)]
+        return [self._p(n, neg, env)]
+
+    def _p(self, n: ast.expr, neg: bool, env: dict) -> str:
+        n, pol = strip_nots(n)
+        neg = neg != (not pol)
+        src = ast.unparse(n)
+        if src in self.attrs and self.attrs[src][0] == "p":
+            t = self.attrs[src][1]
+            return f"(¬ {t})" if neg else t
+        if isinstance(n, ast.Name):
+            if n.id not in env or env[n.id][0] != "p":
+                raise Unsupported(f"`{n.id}` used as a condition")
+            v = env[n.id]
+            if len(v) > 2:  # re-translate the defining expression under the requested polarity (De Morgan)
+                return self._p(v[2][0], neg, v[2][1])
+            return f"(¬ {v[1]})" if neg else v[1]
+        if isinstance(n, ast.BoolOp):
+            is_and = isinstance(n.op, ast.And) != neg
+            parts = [x for v in n.values for x in self._junct(v, neg, env, is_and)]
+            return "(" + (" ∧ " if is_and else " ∨ ").join(parts) + ")"
+        if isinstance(n, ast.Compare):
+            links = self._links(n, env)
+            if neg and len(links) > 1:  # a chain is the conjunction of its links
+                return "(" + " ∨ ".join(f"(¬ ({x}))" for x in links) + ")"
+            t = "(" + " ∧ ".join(links) + ")"
+            return f"(¬ {t})" if neg else t
+        if isinstance(n, ast.Constant) and isinstance(n.value, bool):
+            return "True" if n.value != neg else "False"
+        if isinstance(n, ast.Call):
+            f = ast.unparse(n.func)
+            t = None
+            if f == "math.isclose":
+                args = list(n.args)
+                kw = {k.arg: k.value for k in n.keywords}
+                a = args[0] if args else kw.pop("a", None)
+                b = args[1] if len(args) > 1 else kw.pop("b", None)
+                if a is None or b is None or len(args) > 2 or set(kw) - {"rel_tol", "abs_tol"}:
+                    raise Unsupported(f"isclose call {src}")
+                opt = "".join(f" ({k} := {self.e(kw[k], env)})" for k in ("rel_tol", "abs_tol") if k in kw)
+                t = f"(pyIsclose {self.e(a, env)} {self.e(b, env)}{opt})"
+            elif f in ("is_close_to_zero", "_math.is_close_to_zero") and len(n.args) == 1 and not n.keywords:
+                t = f"(isCloseToZero {self.e(n.args[0], env)})"
+            if t is not None:
+                return f"(¬ {t})" if neg else t
+        raise Unsupported(f"condition {src[:80]}")
+
+    def p(self, n: ast.expr, env: dict) -> str:
+        return self._p(n, False, env)
+
+    # ---- statements
+    def block(self, stmts: list[ast.stmt], env: dict, ind: str, fall=None, ret=None, cont=None) -> str:
+        """`fall(env)` / `cont(env)` / `ret(value, env)` give the Lean text of the result at the three kinds of exit."""
+        return self._show(self._merge(self._tree(stmts, env, fall, ret, cont)), ind)
+
+    # decision tree: ("leaf", text) | ("if", test, env, then-tree, else-tree)
+    def _merge(self, t: tuple) -> tuple:
+        """`if a: X elif b: X else: Y` = `if a or b: X else: Y`; `if a: (if b: X else: Y) else: Y` = `if a and b: X else: Y`;
+        `if a: X else: X` = `X` — so consecutive guard clauses with the same outcome and one combined test give one term."""
+        if t[0] == "leaf":
+            return t
+        _, test, env, a, b = t
+        a, b = self._merge(a), self._merge(b)
+        if a == b:
+            return a
+        if b[0] == "if" and b[2] == env and b[3] == a:
+            return self._merge(("if", ast.BoolOp(op=ast.Or(), values=[test, b[1]]), env, a, b[4]))
+        if a[0] == "if" and a[2] == env and a[4] == b:
+            return self._merge(("if", ast.BoolOp(op=ast.And(), values=[test, a[1]]), env, a[3], b))
+        return ("if", test, env, a, b)
+
+    def _show(self, t: tuple, ind: str) -> str:
+        if t[0] == "leaf":
+            return ind + t[1]
+        _, test, env, a, b = t
+        return (f"{ind}if {self.p(test, env)} then\n" + self._show(a, ind + "  ")
+                + f"\n{ind}else\n" + self._show(b, ind + "  "))
+
+    def _tree(self, stmts: list[ast.stmt], env: dict, fall=None, ret=None, cont=None) -> tuple:
+        if not stmts:
+            if fall is None:
+                raise Unsupported("control falls off the end of the translated block")
+            return ("leaf", fall(env))
+        s, rest = stmts[0], stmts[1:]
+        if isinstance(s, ast.Expr):
+            if isinstance(s.value, ast.Constant) and isinstance(s.value.value, str):
+                return self._tree(rest, env, fall, ret, cont)
+            if isinstance(s.value, ast.Call) and ast.unparse(s.value.func).startswith("_logger."):
+                return self._tree(rest, env, fall, ret, cont)
+            raise Unsupported(f"statement {ast.unparse(s)[:60]}")
+        if isinstance(s, (ast.Assert, ast.Pass)):
+            return self._tree(rest, env, fall, ret, cont)  # preconditions: part of the model's well-formedness
+        if isinstance(s, (ast.Assign, ast.AnnAssign, ast.AugAssign)):
+            if isinstance(s, ast.Assign):
+                if len(s.targets) != 1:
+                    raise Unsupported("multiple assignment")
+                tgt, val = s.targets[0], s.value
+            elif isinstance(s, ast.AnnAssign):
+                if s.value is None:
+                    return self._tree(rest, env, fall, ret, cont)
+                tgt, val = s.target, s.value
+            else:
+                tgt = s.target
+                if not isinstance(s.op, (ast.Add, ast.Sub, ast.Mult)):
+                    raise Unsupported("augmented assignment operator")
+                val = ast.BinOp(left=ast.Name(id=getattr(tgt, "id", "?"), ctx=ast.Load()), op=s.op, right=s.value)
+            if not isinstance(tgt, ast.Name):
+                raise Unsupported(f"assignment target {ast.unparse(tgt)}")
+            if tgt.id in self.skip_targets:
+                return self._tree(rest, env, fall, ret, cont)
+            env = dict(env)
+            if Tr.is_boolish(val) or (isinstance(val, ast.Name) and val.id in env and env[val.id][0] == "p") \
+                    or (ast.unparse(val) in self.attrs and self.attrs[ast.unparse(val)][0] == "p"):
+                env[tgt.id] = ("p", self.p(val, env), (val, dict(env)))
+            else:
+                env[tgt.id] = ("v", self.e(val, env))
+            return self._tree(rest, env, fall, ret, cont)
+        if isinstance(s, ast.If):
+            # polarity of the test, looking through `not` and through locals that merely name a condition
+            test, pol, tenv = s.test, True, env
+            while True:
+                test, q = strip_nots(test)
+                pol = pol == q
+                if isinstance(test, ast.Name) and test.id in tenv and tenv[test.id][0] == "p" and len(tenv[test.id]) > 2:
+                    test, tenv = tenv[test.id][2]
+                    continue
+                break
+            a, b = (s.body, s.orelse) if pol else (s.orelse, s.body)
+            self.p(test, tenv)  # refuse an untranslatable test here, not while printing
+            return ("if", test, tenv, self._tree(a + rest, env, fall, ret, cont), self._tree(b + rest, env, fall, ret, cont))
+        if isinstance(s, ast.Return) and isinstance(s.value, ast.IfExp):  # `return a if c else b`
+            v = s.value
+            return self._tree([ast.If(test=v.test, body=[ast.Return(value=v.body)], orelse=[ast.Return(value=v.orelse)])],
+                              env, fall, ret, cont)
+        if isinstance(s, ast.Return):
+            if ret is None:
+                raise Unsupported("return in a block without return mapping")
+            return ("leaf", ret(s.value, env))
+        if isinstance(s, ast.Continue):
+            if cont is None:
+                raise Unsupported("continue outside a loop segment")
+            return ("leaf", cont(env))
+        raise Unsupported(f"statement {type(s).__name__}: {ast.unparse(s)[:60]}")
+
+
+class _SubstNames(ast.NodeTransformer):
+    def __init__(self, m: dict[str, ast.expr]):
+        self.m = m
+
+    def visit_Name(self, node: ast.Name) -> ast.AST:  # noqa: N802
+        if isinstance(node.ctx, ast.Load) and node.id in self.m:
+            import copy
+            return copy.deepcopy(self.m[node.id])
+        return node
+
+
+def inline_helpers(fn: ast.FunctionDef, scopes: list[ast.AST], keep: tuple[str, ...] = ()) -> ast.FunctionDef:
+    """Calls of `self._h(...)` / `_h(...)` whose definition (a method of the class / a function of the module in
+    `scopes`) is a single `return <expr>` are replaced by that expression with the arguments substituted
+    (extracted-helper refactors).  Anything else is left as a call (and later refused by the translator)."""
+    import copy
+    methods: dict[str, ast.FunctionDef] = {}
+    functions: dict[str, ast.FunctionDef] = {}
+    for holder in scopes:
+        for m in getattr(holder, "body", []):
+            if not isinstance(m, ast.FunctionDef) or m.name == fn.name or m.name in keep:
+                continue
+            body = [s for s in m.body if not (isinstance(s, ast.Expr) and isinstance(s.value, ast.Constant))]
+            if len(body) == 1 and isinstance(body[0], ast.Return) and body[0].value is not None \
+                    and not (m.args.vararg or m.args.kwarg or m.args.kwonlyargs or m.args.posonlyargs):
+                (methods if isinstance(holder, ast.ClassDef) else functions)[m.name] = m
+
+    def expand(m: ast.FunctionDef, params: list[str], node: ast.Call) -> ast.AST:
+        if any(isinstance(a, ast.Starred) for a in node.args) or any(k.arg is None for k in node.keywords):
+            return node
+        bind: dict[str, ast.expr] = dict(zip(params, node.args))
+        for k in node.keywords:
+            if k.arg not in params or k.arg in bind:
+                return node
+            bind[k.arg] = k.value  # type: ignore[index]
+        defaults = dict(zip(reversed([a.arg for a in m.args.args]), reversed(m.args.defaults)))
+        for q in params:
+            if q not in bind and q in defaults:
+                bind[q] = defaults[q]
+        if len(node.args) > len(params) or set(bind) != set(params):
+            return node
+        body = [s for s in m.body if not (isinstance(s, ast.Expr) and isinstance(s.value, ast.Constant))]
+        return _SubstNames(bind).visit(copy.deepcopy(body[0].value))  # type: ignore[attr-defined]
+
+    class V(ast.NodeTransformer):
+        def visit_Call(self, node: ast.Call) -> ast.AST:  # noqa: N802
+            self.generic_visit(node)
+            f = node.func
+            if isinstance(f, ast.Attribute) and isinstance(f.value, ast.Name) and f.value.id == "self" and f.attr in methods:
+                m = methods[f.attr]
+                params = [a.arg for a in m.args.args]
+                if any(ast.unparse(d) == "staticmethod" for d in m.decorator_list):
+                    return expand(m, params, node)
+                if m.decorator_list or not params:
+                    return node
+                return expand(m, params[1:], node)
+            if isinstance(f, ast.Name) and f.id in functions and not functions[f.id].decorator_list:
+                return expand(functions[f.id], [a.arg for a in functions[f.id].args.args], node)
+            return node
+
+    return ast.fix_missing_locations(V().visit(copy.deepcopy(fn)))
+
+
 # --------------------------------------------------------------------------------------- AST navigation
 def parse(repo: pathlib.Path, rel: str) -> ast.Module:
     return ast.parse((repo / rel).read_text())
@@ -365,16 +787,44 @@ def assigned_value(stmts: list[ast.stmt], target_src: str) -> ast.expr:
 
 
 # --------------------------------------------------------------------------------------- sites
+def _params(fn: ast.FunctionDef, n: int, what: str, method: bool = False) -> list[str]:
+    """Positional parameter names (without `self`); the count is checked, the names are not."""
+    a = fn.args
+    if a.vararg or a.kwarg or a.kwonlyargs or a.posonlyargs:
+        raise Unsupported(f"{what}: signature")
+    names = [x.arg for x in a.args]
+    if method:
+        if not names:
+            raise Unsupported(f"{what}: signature")
+        names = names[1:]
+    if len(names) != n:
+        raise Unsupported(f"{what}: expected {n} parameters, found {names}")
+    return names
+
+
+def _class_of(tree: ast.AST, cls: str) -> ast.ClassDef:
+    c = next((n for n in ast.walk(tree) if isinstance(n, ast.ClassDef) and n.name == cls), None)
+    if c is None:
+        raise Unsupported(f"class {cls} not found")
+    return c
+
+
+PB_FIELDS: list[str] = []
+
+
 def gen_math(repo: pathlib.Path) -> str:
-    fn = find_func(parse(repo, P_MATH), "is_close_to_zero")
-    args = fn.args
-    if [a.arg for a in args.args] != ["value", "abs_tol"] or len(args.defaults) != 1:
+    tree = parse(repo, P_MATH)
+    fn = find_func(tree, "is_close_to_zero")
+    value, abs_tol = _params(fn, 2, "is_close_to_zero")
+    if len(fn.args.defaults) != 1:
         raise Unsupported("is_close_to_zero signature")
-    d = args.defaults[0]
-    if not (isinstance(d, ast.Constant) and isinstance(d.value, (int, float))):
+    d = fn.args.defaults[0]
+    if not (isinstance(d, ast.Constant) and isinstance(d.value, (int, float)) and not isinstance(d.value, bool)):
         raise Unsupported("is_close_to_zero abs_tol default")
-    tr = Tr()
-    body = tr.block(body_no_doc(fn), {}, "  ", None, ret=lambda v, env: tr.p(v, env))
+    fn = inline_helpers(fn, [tree])
+    tr = CTr()
+    env = {value: ("v", "value"), abs_tol: ("v", "abs_tol")}
+    body = tr.block(body_no_doc(fn), env, "  ", None, ret=lambda v, env: tr.p(v, env))
     return (f"/-- default `abs_tol` of `_math.is_close_to_zero` -/\n"
             f"def closeToZeroAbsTol : Rat := {rat_lit(d.value)}\n\n"
             f"/-- `_math.is_close_to_zero` -/\n"
@@ -391,6 +841,7 @@ def gen_powerbounds_struct(repo: pathlib.Path) -> str:
               and ast.unparse(s.annotation) == "float"]
     if sorted(fields) != sorted(["inclusion_lower", "exclusion_lower", "exclusion_upper", "inclusion_upper"]):
         raise Unsupported(f"PowerBounds fields changed: {fields}")
+    PB_FIELDS[:] = fields
     return ("/-- `result.PowerBounds` -/\nstructure PowerBounds where\n"
             + "".join(f"  {f} : Rat\n" for f in fields) + "deriving Repr, DecidableEq\n")
 
@@ -398,73 +849,155 @@ def gen_powerbounds_struct(repo: pathlib.Path) -> str:
 def gen_algo(repo: pathlib.Path) -> str:
     tree = parse(repo, P_ALGO)
     fn = find_func(tree, "_aggregate_battery_power_bounds")
-    if [a.arg for a in fn.args.args] != ["battery_metrics"]:
-        raise Unsupported("_aggregate_battery_power_bounds signature")
-    tr = Tr()
-    body = tr.block(body_no_doc(fn), {}, "  ", None, ret=lambda v, env: tr.e(v, env))
+    (metrics,) = _params(fn, 1, "_aggregate_battery_power_bounds")
+    fn = inline_helpers(fn, [tree])
+    tr = CTr(pb_fields=PB_FIELDS)
+    body = tr.block(fold_sum_loops(body_no_doc(fn)), {metrics: ("v", "battery_metrics")}, "  ", None,
+                    ret=lambda v, env: tr.e(v, env))
     out = ("/-- `_aggregate_battery_power_bounds` (precondition `len(battery_metrics) > 0`) -/\n"
            f"def aggregateBatteryPowerBounds (battery_metrics : List PowerBounds) : PowerBounds :=\n{body}\n\n")
-    # AggregatedBatteryData.__init__: self.power_bounds = _aggregate_battery_power_bounds(list(map(lambda m: PowerBounds(...), batteries)))
-    init = find_func(tree, "__init__", "AggregatedBatteryData")
-    val = assigned_value(init.body, "self.power_bounds")
-    ok = (isinstance(val, ast.Call) and ast.unparse(val.func) == "_aggregate_battery_power_bounds" and len(val.args) == 1)
-    inner = val.args[0] if ok else None
-    if ok and isinstance(inner, ast.Call) and ast.unparse(inner.func) == "list" and len(inner.args) == 1:
+    # AggregatedBatteryData.__init__: self.power_bounds = _aggregate_battery_power_bounds(<PowerBounds(...) of each battery>)
+    cls = _class_of(tree, "AggregatedBatteryData")
+    init = inline_helpers(find_func(cls, "__init__"), [cls, tree])
+    (batteries,) = _params(init, 1, "AggregatedBatteryData.__init__", method=True)
+    vals = [n.value for n in ast.walk(init) if isinstance(n, (ast.Assign, ast.AnnAssign)) and n.value is not None
+            and ast.unparse(n.targets[0] if isinstance(n, ast.Assign) else n.target) == "self.power_bounds"]
+    if len(vals) != 1:
+        raise Unsupported("AggregatedBatteryData.__init__: expected exactly one assignment to self.power_bounds")
+    val = vals[0]
+    if not (isinstance(val, ast.Call) and ast.unparse(val.func) == "_aggregate_battery_power_bounds"
+            and len(val.args) == 1 and not val.keywords):
+        raise Unsupported("AggregatedBatteryData.power_bounds: expected _aggregate_battery_power_bounds(<one list>)")
+    inner = val.args[0]
+    if isinstance(inner, ast.Name):  # a local holding the list
+        defs = [n.value for n in ast.walk(init) if isinstance(n, (ast.Assign, ast.AnnAssign)) and n.value is not None
+                and ast.unparse(n.targets[0] if isinstance(n, ast.Assign) else n.target) == inner.id]
+        if len(defs) != 1:
+            raise Unsupported(f"AggregatedBatteryData.power_bounds: `{inner.id}` is not assigned exactly once")
+        inner = defs[0]
+    while isinstance(inner, ast.Call) and ast.unparse(inner.func) in ("list", "tuple") and len(inner.args) == 1 and not inner.keywords:
         inner = inner.args[0]
-    if not (ok and isinstance(inner, ast.Call) and ast.unparse(inner.func) == "map" and len(inner.args) == 2
-            and isinstance(inner.args[0], ast.Lambda) and ast.unparse(inner.args[1]) == "batteries"):
-        raise Unsupported("AggregatedBatteryData.power_bounds: expected _aggregate_battery_power_bounds(list(map(lambda …, batteries)))")
-    lam = inner.args[0]
-    var = lam.args.args[0].arg
+    var = elt = None
+    if isinstance(inner, ast.Call) and ast.unparse(inner.func) == "map" and len(inner.args) == 2 and not inner.keywords \
+            and isinstance(inner.args[0], ast.Lambda) and len(inner.args[0].args.args) == 1 \
+            and ast.unparse(inner.args[1]) == batteries:
+        var, elt = inner.args[0].args.args[0].arg, inner.args[0].body
+    elif isinstance(inner, (ast.ListComp, ast.GeneratorExp)) and len(inner.generators) == 1 \
+            and not inner.generators[0].ifs and isinstance(inner.generators[0].target, ast.Name) \
+            and ast.unparse(inner.generators[0].iter) == batteries:
+        var, elt = inner.generators[0].target.id, inner.elt
+    if var is None:
+        raise Unsupported("AggregatedBatteryData.power_bounds: expected one PowerBounds(...) per element of `batteries` "
+                          "(map(lambda …, batteries) or a comprehension over it)")
     out += ("/-- `AggregatedBatteryData.__init__`: per-battery `PowerBounds` handed to `_aggregate_battery_power_bounds` -/\n"
-            f"def batteryPowerBounds ({var} : BatteryData) : PowerBounds :=\n  {Tr().e(lam.body, {})}\n")
+            f"def batteryPowerBounds (metrics : BatteryData) : PowerBounds :=\n  "
+            f"{CTr(pb_fields=PB_FIELDS).e(elt, {var: ('v', 'metrics')})}\n")
     return out
+
+
+def _top_assign(stmts: list[ast.stmt], pred, what: str) -> tuple[int, str]:
+    hits = [(i, s) for i, s in enumerate(stmts) if isinstance(s, (ast.Assign, ast.AnnAssign)) and s.value is not None
+            and pred(s.value)]
+    if len(hits) != 1:
+        raise Unsupported(f"_check_request: expected exactly one top-level `{what}`, found {len(hits)}")
+    i, s = hits[0]
+    tgt = s.targets[0] if isinstance(s, ast.Assign) and len(s.targets) == 1 else getattr(s, "target", None)
+    if not isinstance(tgt, ast.Name):
+        raise Unsupported(f"_check_request: target of `{what}`")
+    return i, tgt.id
+
+
+def _crucial_lists(fn: ast.FunctionDef) -> tuple[list[str], list[str]]:
+    """The metric lists whose NaN check guards the battery data resp. the inverter data of the returned pair.
+
+    Roles: the function returns `InvBatPair(AggregatedBatteryData(B), I)`; before that, `if <check>(B, L1): return None`
+    and `if <check>(I, L2): return None` where `<check>` is the local NaN test and `L1`/`L2` are lists of string
+    literals (given inline or through a local)."""
+    rets = [s for s in ast.walk(fn) if isinstance(s, ast.Return) and isinstance(s.value, ast.Call)
+            and ast.unparse(s.value.func) == "InvBatPair"]
+    if len(rets) != 1:
+        raise Unsupported("_get_battery_inverter_data: expected exactly one `return InvBatPair(...)`")
+    call = rets[0].value
+    args = list(call.args) + [k.value for k in call.keywords]  # type: ignore[attr-defined]
+    kw = {k.arg: k.value for k in call.keywords}  # type: ignore[attr-defined]
+    bat = kw.get("battery", args[0] if call.args else None)  # type: ignore[attr-defined]
+    inv = kw.get("inverter", call.args[1] if len(call.args) > 1 else None)  # type: ignore[attr-defined]
+    if not (isinstance(bat, ast.Call) and ast.unparse(bat.func) == "AggregatedBatteryData" and len(bat.args) == 1
+            and isinstance(bat.args[0], ast.Name) and isinstance(inv, ast.Name)):
+        raise Unsupported("_get_battery_inverter_data: expected InvBatPair(AggregatedBatteryData(<batteries>), <inverters>)")
+    bvar, ivar = bat.args[0].id, inv.id
+
+    def lit(n: ast.expr) -> list[str]:
+        if isinstance(n, ast.Name):
+            defs = [x.value for x in ast.walk(fn) if isinstance(x, (ast.Assign, ast.AnnAssign)) and x.value is not None
+                    and ast.unparse(x.targets[0] if isinstance(x, ast.Assign) else x.target) == n.id]
+            if len(defs) != 1:
+                raise Unsupported(f"_get_battery_inverter_data: `{n.id}` is not assigned exactly once")
+            n = defs[0]
+        return str_list(n, "crucial metrics")
+
+    found: dict[str, list[str]] = {}
+    for s in fn.body:
+        if not isinstance(s, ast.If):
+            continue
+        test = s.test
+        if not (isinstance(test, ast.Call) and isinstance(test.func, ast.Name) and len(test.args) == 2 and not test.keywords
+                and isinstance(test.args[0], ast.Name) and test.args[0].id in (bvar, ivar)):
+            continue
+        body = [x for x in s.body if not (isinstance(x, ast.Expr) and isinstance(x.value, ast.Call)
+                                          and ast.unparse(x.value.func).startswith("_logger."))]
+        if not (len(body) == 1 and isinstance(body[0], ast.Return) and (body[0].value is None or (
+                isinstance(body[0].value, ast.Constant) and body[0].value.value is None)) and not s.orelse):
+            raise Unsupported("_get_battery_inverter_data: a NaN check no longer returns None")
+        if test.args[0].id in found:
+            raise Unsupported("_get_battery_inverter_data: two NaN checks of the same data")
+        found[test.args[0].id] = lit(test.args[1])
+    if set(found) != {bvar, ivar}:
+        raise Unsupported("_get_battery_inverter_data: the NaN checks of the battery / inverter data were not found")
+    return found[bvar], found[ivar]
 
 
 def gen_manager(repo: pathlib.Path) -> str:
     tree = parse(repo, P_MGR)
+    cls = _class_of(tree, "BatteryManager")
     # ---- _get_bounds
-    fn = find_func(tree, "_get_bounds", "BatteryManager")
-    if [a.arg for a in fn.args.args] != ["self", "pairs_data"]:
-        raise Unsupported("_get_bounds signature")
-    tr = Tr()
-    body = tr.block(body_no_doc(fn), {}, "  ", None, ret=lambda v, env: tr.e(v, env))
+    fn = inline_helpers(find_func(cls, "_get_bounds"), [cls, tree])
+    (pairs,) = _params(fn, 1, "_get_bounds", method=True)
+    tr = CTr(pb_fields=PB_FIELDS)
+    body = tr.block(fold_sum_loops(body_no_doc(fn)), {pairs: ("v", "pairs_data")}, "  ", None, ret=lambda v, env: tr.e(v, env))
     out = ("/-- `BatteryManager._get_bounds` -/\n"
            f"def getBounds (pairs_data : List (AggregatedBatteryData × List InverterData)) : PowerBounds :=\n{body}\n\n")
-    # ---- _check_request: everything after `bounds = self._get_bounds(pairs_data)`
-    fn = find_func(tree, "_check_request", "BatteryManager")
+    # ---- _check_request: what follows `<bounds> = self._get_bounds(<pairs>)` and `<power> = <request>.power.as_watts()`
+    fn = inline_helpers(find_func(cls, "_check_request"), [cls, tree], keep=("_get_bounds",))
+    req, pairs = _params(fn, 2, "_check_request", method=True)
     stmts = body_no_doc(fn)
-    idx = next((i for i, s in enumerate(stmts) if isinstance(s, ast.Assign)
-                and ast.unparse(s.value) == "self._get_bounds(pairs_data)" and ast.unparse(s.targets[0]) == "bounds"), None)
-    if idx is None:
-        raise Unsupported("_check_request: `bounds = self._get_bounds(pairs_data)` not found")
-    # `power = request.power.as_watts()` directly before or after it (two independent statements, either order)
-    pidx = next((i for i in (idx + 1, idx - 1) if 0 <= i < len(stmts) and isinstance(stmts[i], ast.Assign)
-                 and ast.unparse(stmts[i].value) == "request.power.as_watts()"  # type: ignore[attr-defined]
-                 and isinstance(stmts[i].targets[0], ast.Name)), None)  # type: ignore[attr-defined]
-    if pidx is None:
-        raise Unsupported("_check_request: expected `power = request.power.as_watts()` next to the bounds")
-    pw = stmts[pidx].targets[0].id  # type: ignore[attr-defined]
-    tail = [None] + stmts[max(idx, pidx) + 1:]
-    tr = Tr(subst={"request.adjust_power": "adjust_power"})
+    bi, bvar = _top_assign(stmts, lambda v: ast.unparse(v) == f"self._get_bounds({pairs})", "… = self._get_bounds(pairs_data)")
+    pi, pvar = _top_assign(stmts, lambda v: ast.unparse(v) == f"{req}.power.as_watts()", "… = request.power.as_watts()")
+    tail = stmts[max(bi, pi) + 1:]
+    for s in stmts[min(bi, pi) + 1:max(bi, pi)] + tail:
+        for x in ast.walk(s):
+            if isinstance(x, ast.Name) and isinstance(x.ctx, ast.Store) and x.id in (bvar, pvar, req):
+                raise Unsupported(f"_check_request: `{x.id}` is reassigned")
+    tr = CTr(attrs={f"{req}.adjust_power": ("p", "adjust_power = true")}, pb_fields=PB_FIELDS)
 
     def ret(v, env):
         if v is None or (isinstance(v, ast.Constant) and v.value is None):
             return "false"
+        if isinstance(v, ast.IfExp):
+            test, pol = strip_nots(v.test)
+            a, b = (v.body, v.orelse) if pol else (v.orelse, v.body)
+            return f"(if {tr.p(test, env)} then {ret(a, env)} else {ret(b, env)})"
         if isinstance(v, ast.Call) and ast.unparse(v.func) == "OutOfBounds":
-            kw = {k.arg: ast.unparse(k.value) for k in v.keywords}
-            if kw != {"request": "request", "bounds": "bounds"}:
+            if v.args or {k.arg: ast.unparse(k.value) for k in v.keywords} != {"request": req, "bounds": bvar}:
                 raise Unsupported("OutOfBounds(...) arguments")
             return "true"
         raise Unsupported(f"_check_request returns {ast.unparse(v)[:60]}")
 
-    body = tr.block(tail[1:], {}, "  ", None, ret=ret)
+    body = tr.block(tail, {bvar: ("v", "bounds"), pvar: ("v", "power")}, "  ", lambda env: "false", ret=ret)
     out += ("/-- tail of `BatteryManager._check_request` (after the id checks): `true` = answered with `OutOfBounds` -/\n"
-            f"def checkRequest (bounds : PowerBounds) ({pw} : Rat) (adjust_power : Bool) : Bool :=\n{body}\n\n")
+            f"def checkRequest (bounds : PowerBounds) (power : Rat) (adjust_power : Bool) : Bool :=\n{body}\n\n")
     # ---- crucial metrics
-    fn = find_func(tree, "_get_battery_inverter_data", "BatteryManager")
-    bat = str_list(assigned_value(fn.body, "crucial_metrics_bat"), "crucial_metrics_bat")
-    inv = str_list(assigned_value(fn.body, "crucial_metrics_inv"), "crucial_metrics_inv")
+    bat, inv = _crucial_lists(find_func(cls, "_get_battery_inverter_data"))
     out += ("/-- `_get_battery_inverter_data`: a NaN in one of these drops the whole battery set -/\n"
             f"def crucialMetricsBat : List String := {lean_strs(bat)}\n"
             f"def crucialMetricsInv : List String := {lean_strs(inv)}\n")
@@ -613,27 +1146,40 @@ def gen_power_bounds_calc(tree: ast.Module) -> str:
            f"def inverterMetricIds : List String := {lean_strs(inv_ids)}\n\n")
     fn = find_func(tree, "calculate", cls)
     gv = find_func(fn, "get_validated_bounds")
+    _, ids_param = _params(gv, 2, "get_validated_bounds")
     rets = [s for s in ast.walk(gv) if isinstance(s, ast.Return) and isinstance(s.value, ast.Call)
             and ast.unparse(s.value.func) == "PowerBounds"]
     if len(rets) != 1:
         raise Unsupported("get_validated_bounds: expected exactly one `return PowerBounds(...)`")
-    guard_ok = any(isinstance(s, ast.If) and ast.unparse(s.test) == "len(results) != len(comp_metric_ids)"
+    res_vars = {x.value.id for x in ast.walk(rets[0].value) if isinstance(x, ast.Subscript) and isinstance(x.value, ast.Name)}
+    if len(res_vars) != 1:
+        raise Unsupported("get_validated_bounds: the returned bounds are no longer read from one list of results")
+    (results,) = res_vars
+    guards = {f"len({results}) != len({ids_param})", f"len({ids_param}) != len({results})"}
+    guard_ok = any(isinstance(s, ast.If) and ast.unparse(s.test) in guards
                    and len(s.body) == 1 and isinstance(s.body[0], ast.Return)
-                   and isinstance(s.body[0].value, ast.Constant) and s.body[0].value.value is None for s in gv.body)
+                   and (s.body[0].value is None or (isinstance(s.body[0].value, ast.Constant) and s.body[0].value.value is None))
+                   for s in gv.body)
     if not guard_ok:
         raise Unsupported("get_validated_bounds: the `len(results) != len(comp_metric_ids)` guard changed")
     out += ("/-- `get_validated_bounds`: `results` = the present values, in the order of the metric id list -/\n"
-            f"def validatedBounds (results : List Rat) : PowerBounds :=\n  {Tr().e(rets[0].value, {})}\n\n")
+            f"def validatedBounds (results : List Rat) : PowerBounds :=\n  "
+            f"{CTr(pb_fields=PB_FIELDS).e(rets[0].value, {results: ('v', 'results')})}\n\n")
+
+    def is_empty_test(test: ast.expr, var: str) -> bool:
+        return ast.unparse(test) in (f"len({var}) == 0", f"0 == len({var})", f"not {var}", f"len({var}) < 1")
 
     def is_inv_guard(test: ast.expr) -> bool:
-        return ast.unparse(test) == f"len({inv_var}) == 0"
+        return is_empty_test(test, inv_var)  # type: ignore[arg-type]
 
-    # names of the two per-group values
+    # names of the two per-group values (by the calls that produce them)
     loop = next((s for s in body_no_doc(fn) if isinstance(s, ast.For)), None)
     if loop is None:
         raise Unsupported("PowerBoundsCalculator.calculate: loop not found")
     agg_var = inv_var = bat_var = None
     for s in loop.body:
+        if isinstance(s, ast.AnnAssign) and s.value is not None:
+            s = ast.Assign(targets=[s.target], value=s.value)
         if isinstance(s, ast.Assign) and isinstance(s.targets[0], ast.Name) and isinstance(s.value, ast.Call):
             f = ast.unparse(s.value.func)
             if f == "_aggregate_battery_power_bounds" and len(s.value.args) == 1:
@@ -642,43 +1188,61 @@ def gen_power_bounds_calc(tree: ast.Module) -> str:
                 inv_var = s.targets[0].id
     if not (agg_var and inv_var and bat_var):
         raise Unsupported("PowerBoundsCalculator.calculate: aggregated battery bounds / inverter bounds assignments not found")
-    bat_guard = any(isinstance(s, ast.If) and ast.unparse(s.test) == f"len({bat_var}) == 0" and len(s.body) == 1
-                    and isinstance(s.body[0], ast.Continue) for s in loop.body)
+    bat_guard = any(isinstance(s, ast.If) and is_empty_test(s.test, bat_var) and len(s.body) == 1
+                    and isinstance(s.body[0], ast.Continue) and not s.orelse for s in loop.body)
     if not bat_guard:
         raise Unsupported("PowerBoundsCalculator.calculate: `if len(battery_bounds) == 0: continue` not found")
     pre, seg, loop, post = loop_segment(fn, is_inv_guard)
-    accs = zero_inits(pre, {"timestamp", "loop_timestamp"})
-    if len(accs) != 4:
-        raise Unsupported(f"PowerBoundsCalculator.calculate: expected 4 accumulators, found {accs}")
-    tr = Tr(skip_targets={"timestamp", "loop_timestamp"})
-    body = tr.block(seg, {}, "  ", tuple_of(accs), cont=tuple_of(accs))
-    out += (f"/-- `PowerBoundsCalculator.calculate`: loop body for one contributing battery set; state = ({', '.join(accs)}) -/\n"
-            "def calcStep " + " ".join(f"({a} : Rat)" for a in accs)
-            + f" ({agg_var} : PowerBounds) ({inv_var} : List PowerBounds) : {tuple_ty(4)} :=\n{body}\n\n")
+    # bookkeeping of the sample time: locals that start at _MIN_TIMESTAMP (not part of the arithmetic)
+    stamps = set()
+    for s0 in pre:
+        t0 = s0.targets[0] if isinstance(s0, ast.Assign) and len(s0.targets) == 1 else getattr(s0, "target", None)
+        if isinstance(t0, ast.Name) and isinstance(getattr(s0, "value", None), ast.Name) and s0.value.id == "_MIN_TIMESTAMP":  # type: ignore[union-attr]
+            stamps.add(t0.id)
+    accs_src = zero_inits(pre, stamps)
     # final return: SystemBounds(timestamp=…, inclusion_bounds=Bounds(Power.from_watts(a), Power.from_watts(b)), exclusion_bounds=…)
     final = [s for s in post if isinstance(s, ast.Return)]
-    if len(final) != 1 or not isinstance(final[0].value, ast.Call):
+    if len(final) != 1 or not isinstance(final[0].value, ast.Call) or not ast.unparse(final[0].value.func).endswith("SystemBounds"):
         raise Unsupported("PowerBoundsCalculator.calculate: final return")
     kws = {k.arg: k.value for k in final[0].value.keywords}
 
-    def pw(n: ast.expr) -> str:
-        if isinstance(n, ast.Call) and ast.unparse(n.func) == "Power.from_watts" and len(n.args) == 1:
-            return Tr().e(n.args[0], {})
+    def pw(n: ast.expr) -> ast.expr:
+        if isinstance(n, ast.Call) and ast.unparse(n.func) == "Power.from_watts" and len(n.args) == 1 and not n.keywords:
+            return n.args[0]
         raise Unsupported(f"SystemBounds value {ast.unparse(n)[:50]}")
 
-    def bnd(n: ast.expr | None) -> tuple[str, str]:
+    def bnd(n: ast.expr | None) -> tuple[ast.expr, ast.expr]:
         if isinstance(n, ast.Call) and ast.unparse(n.func).endswith("Bounds") and len(n.args) == 2 and not n.keywords:
             return pw(n.args[0]), pw(n.args[1])
         if isinstance(n, ast.Call) and ast.unparse(n.func).endswith("Bounds") and not n.args:
             kk = {k.arg: k.value for k in n.keywords}
+            if set(kk) != {"lower", "upper"}:
+                raise Unsupported("SystemBounds bounds shape")
             return pw(kk["lower"]), pw(kk["upper"])
         raise Unsupported("SystemBounds bounds shape")
 
     il, iu = bnd(kws.get("inclusion_bounds"))
     el, eu = bnd(kws.get("exclusion_bounds"))
+    # the four running sums, in the canonical order (incl lower, incl upper, excl lower, excl upper): a running sum is
+    # identified by the bound of the result it feeds, not by its name or by the position of its initialisation
+    canon = ["inclusion_bounds_lower", "inclusion_bounds_upper", "exclusion_bounds_lower", "exclusion_bounds_upper"]
+    roles = [x for r in (il, iu, el, eu) for x in sorted(_names_in(r) & set(accs_src))]
+    if len(accs_src) != 4 or len(roles) != 4 or len(set(roles)) != 4 \
+            or any(len(_names_in(r) & set(accs_src)) != 1 for r in (il, iu, el, eu)):
+        raise Unsupported(f"PowerBoundsCalculator.calculate: expected 4 accumulators, one per streamed bound; found {accs_src}")
+    env = {py: ("v", c) for py, c in zip(roles, canon)}
+    tr = CTr(skip_targets=stamps, pb_fields=PB_FIELDS)
+    state = lambda e: "(" + ", ".join(e[py][1] for py in roles) + ")"  # noqa: E731
+    body = tr.block(fold_sum_loops(seg), {**env, agg_var: ("v", "aggregated_bat_bounds"), inv_var: ("v", "inverter_bounds")},
+                    "  ", state, cont=state)
+    out += (f"/-- `PowerBoundsCalculator.calculate`: loop body for one contributing battery set; state = ({', '.join(canon)}) -/\n"
+            "def calcStep " + " ".join(f"({a} : Rat)" for a in canon)
+            + f" (aggregated_bat_bounds : PowerBounds) (inverter_bounds : List PowerBounds) : {tuple_ty(4)} :=\n{body}\n\n")
+    tr2 = CTr()
     out += ("/-- `PowerBoundsCalculator.calculate`: the `SystemBounds` streamed once a battery set contributed -/\n"
-            "def calcResult " + " ".join(f"({a} : Rat)" for a in accs) + " : PowerBounds :=\n"
-            f"  {{ inclusion_lower := {il}, exclusion_lower := {el}, exclusion_upper := {eu}, inclusion_upper := {iu} }}\n")
+            "def calcResult " + " ".join(f"({a} : Rat)" for a in canon) + " : PowerBounds :=\n"
+            f"  {{ inclusion_lower := {tr2.e(il, env)}, exclusion_lower := {tr2.e(el, env)}, "
+            f"exclusion_upper := {tr2.e(eu, env)}, inclusion_upper := {tr2.e(iu, env)} }}\n")
     return out
 
 
